@@ -132,7 +132,8 @@ GenMatrixOK(e) ==
              /\ T.s = 1 /\ T.n # <<>>
              /\ \A k \in 1..2 : LE(Mul(Mul(IAbs(ISub(IMul(col(c)[k], D40), IMul(IF k = 1 THEN p.x ELSE p.y, T))).n, Pow(<<10>>, 6)), kapDen),
                                    Mul(Add(Mul(T.n, D40.n), Mul(D40.n, <<3>>)), MaxS(kapNum, kapDen)))
-    IN /\ \A r \in Idx : NearK(ISum3(to[r][1], to[r][2], to[r][3]), W.num[r], W.den)        \* (1,1,1) -> white, Y = 1
+    IN /\ ~e.panic                                                                            \* a non-degenerate triple is never refused
+       /\ \A r \in Idx : NearK(ISum3(to[r][1], to[r][2], to[r][3]), W.num[r], W.den)        \* (1,1,1) -> white, Y = 1
        /\ chromaOK(1, pr) /\ chromaOK(2, pg) /\ chromaOK(3, pb)                             \* unit primaries keep their chromaticity
        \* from * to = I within 10^-9 kappa:  |prod - delta S36| kapDen <= 10^-9 S36 kapNum  (+ slack for the floors)
        /\ \A r \in Idx : \A c \in Idx :
